@@ -183,7 +183,7 @@ class Simplifier(walkers.dag.DagWalker):
         free_vars: FrozenSet["up.model.variable.Variable"] = (
             self.environment.free_vars_oracle.get_free_variables(args[0])
         )
-        vars = set(var for var in expression.variables() if var in free_vars)
+        vars = [var for var in expression.variables() if var in free_vars]
         # Here we check if the arg is in the form:
         # phi(l_i) and l_i == x with phi and x general formulae and l_i a variable
         # bounded to this Exists.
